@@ -1743,3 +1743,103 @@ func c20SharedPointeeWrite(c *Ctx) {
 		c.R.Hold("R-shared-pointee-write", "records of other packages reached through members are not written after construction", "", sprintf("%d writes through member pointers examined", n))
 	}
 }
+
+// ---------------------------------------------------------------- R-schema-from-type (C18)
+// A member's schema is derived from the member's Go type. A post-processing helper on the field walk — it is handed the
+// struct field and the schema generated for it and returns the schema to use — that can return a schema other than the
+// one it was handed (a fresh `string` schema for a tag option, say) replaces the type-derived schema wholesale; what
+// encoding/json does with such options depends on the kind of the field (",string" applies to scalars only), so a
+// helper that never consults the field's kind describes slices, maps and structs wrongly.
+func c18SchemaFromType(c *Ctx, gens []*ssa.Function) {
+	isSchemaPtr := func(t types.Type) bool {
+		pt, ok := t.Underlying().(*types.Pointer)
+		if !ok {
+			return false
+		}
+		nm, ok := pt.Elem().(*types.Named)
+		return ok && nm.Obj().Name() == "Schema"
+	}
+	n := 0
+	seen := map[*ssa.Function]bool{}
+	for _, g := range gens {
+		walks := false
+		ir.EachCall(g, func(call ssa.CallInstruction) {
+			if call.Common().IsInvoke() && call.Common().Method.Name() == "NumField" {
+				walks = true
+			}
+		})
+		if !walks {
+			continue
+		}
+		ir.EachCall(g, func(call ssa.CallInstruction) {
+			h := ir.StaticCallee(call)
+			if h == nil || !c.P.IsLib(h) || h.Blocks == nil || seen[h] {
+				return
+			}
+			var field, schema *ssa.Parameter
+			for _, p := range h.Params {
+				if ir.TypeStr(p.Type()) == "reflect.StructField" {
+					field = p
+				}
+				if isSchemaPtr(p.Type()) {
+					schema = p
+				}
+			}
+			if field == nil || schema == nil || h.Signature.Results().Len() != 1 || !isSchemaPtr(h.Signature.Results().At(0).Type()) {
+				return
+			}
+			seen[h] = true
+			n++
+			swaps := false
+			var own func(v ssa.Value, d int) bool
+			own = func(v ssa.Value, d int) bool {
+				if d > 6 {
+					return false
+				}
+				switch x := v.(type) {
+				case *ssa.Parameter:
+					return x == schema
+				case *ssa.Phi:
+					for _, e := range x.Edges {
+						if !own(e, d+1) {
+							return false
+						}
+					}
+					return true
+				}
+				return unspill(v) != v && own(unspill(v), d+1)
+			}
+			for _, b := range h.Blocks {
+				if ret, ok := b.Instrs[len(b.Instrs)-1].(*ssa.Return); ok {
+					for _, res := range ir.Results(ret) {
+						if !own(res, 0) {
+							swaps = true
+						}
+					}
+				}
+			}
+			kind := false
+			for _, f := range sortedFuncs(c.ReachSync(h)) {
+				ir.EachCall(f, func(cc ssa.CallInstruction) {
+					if cc.Common().IsInvoke() && cc.Common().Method.Name() == "Kind" {
+						kind = true
+					}
+					if strings.HasSuffix(ir.CallName(cc), ").Kind") {
+						kind = true
+					}
+				})
+			}
+			ir.EachCall(h, func(cc ssa.CallInstruction) {
+				if strings.HasSuffix(ir.CallName(cc), ").Kind") || (cc.Common().IsInvoke() && cc.Common().Method.Name() == "Kind") {
+					kind = true
+				}
+			})
+			c.R.Check(!swaps || kind, "R-schema-from-type", "field post-processing by "+fname(h), c.Pos(h.Pos()),
+				"returns the schema it was handed, or consults the field's kind before replacing it",
+				sprintf("%s, applied to every field by %s, can return a schema other than the type-derived one it was handed and never looks at the field's kind: whatever tag option it honours is applied to slices, maps and structs as well, for which encoding/json ignores it — the schema then describes a form the value is never encoded in", fname(h), fname(g)))
+		})
+	}
+	if n == 0 {
+		c.R.Hold("R-schema-from-type", "no post-processing helper on the field walks takes and returns a field's schema", "", "field schemas are used as generated from the type")
+	}
+}
